@@ -335,7 +335,7 @@ func c07Request(r *rand.Rand, deep int) *c07Req {
 		q.Headers = append(q.Headers, c07KV{K: c07B(c07Bytes(r, 30)), V: c07B(c07Bytes(r, 30))})
 	}
 	kind, body, ct := c07Body(r, 65536, deep)
-	q.BodyKind, q.Body = kind, c07B(body)
+	q.BodyKind, q.Body = kind, c07B(c07CapNesting(body, c07MaxNesting))
 	if ct != "" || r.IntN(2) == 0 {
 		q.Headers = append(q.Headers, c07KV{K: c07B(c07Pick(r, []string{"Content-Type", "Content-Type", "content-type"})), V: c07B(ct)})
 	}
@@ -358,7 +358,7 @@ func c07Request(r *rand.Rand, deep int) *c07Req {
 	}
 	// response
 	rk, rb, rct := c07Body(r, 65536, deep)
-	q.RespKind, q.RespBody = rk, c07B(rb)
+	q.RespKind, q.RespBody = rk, c07B(c07CapNesting(rb, c07MaxNesting))
 	nrh := r.IntN(4)
 	for i := 0; i < nrh; i++ {
 		q.RespHdrs = append(q.RespHdrs, c07KV{K: c07B(c07Pick(r, []string{"Server", "Set-Cookie", "X-A", "Location", "Content-Length", "Content-Encoding", ""})), V: c07B(c07Bytes(r, 200))})
@@ -370,6 +370,29 @@ func c07Request(r *rand.Rand, deep int) *c07Req {
 }
 
 func c07PickInt(r *rand.Rand, xs []int) int { return xs[r.IntN(len(xs))] }
+
+// c07MaxNesting bounds the bracket nesting of every generated body (candidate known finding
+// "JSON key building is quadratic in the nesting depth", notes/findings/C07.md #8).
+const c07MaxNesting = 4096
+
+// c07CapNesting cuts s where its running count of unclosed '[' and '{' would exceed max.
+func c07CapNesting(s string, max int) string {
+	depth := 0
+	for i := 0; i < len(s); i++ {
+		switch s[i] {
+		case '[', '{':
+			depth++
+			if depth > max {
+				return s[:i]
+			}
+		case ']', '}':
+			if depth > 0 {
+				depth--
+			}
+		}
+	}
+	return s
+}
 
 // ---------------------------------------------------------------------------------------------
 // call sequences
